@@ -584,6 +584,28 @@ def judge_primitive(size, sp):
                 w = (alg + ":" + want) if name in ("qualified_hashsum", "file_hashsum") else want
                 if g != w:
                     viols.append(_v("digest-wrong", f"{name} of {size} bytes = {g!r}, hashlib says {w!r}", alg=alg, call=name.split("(")[0]))
+            # the same file edited IN PLACE (same inode, same size) with its timestamps restored must hash differently
+            if size >= 1:
+                st = os.stat(fp)
+                data2 = bytes([data[0] ^ 0x5A]) + data[1:]
+                with open(fp, "r+b") as f:
+                    f.write(data2)
+                os.utime(fp, ns=(st.st_atime_ns, st.st_mtime_ns))
+                n += 2
+                try:
+                    g2 = H.file_hashsum(Path(fp), alg)
+                    d2 = H.dir_hashsums(Path(root), alg)
+                except Exception as e:  # noqa: BLE001
+                    viols.append(_v("primitive-raised", f"hashing {size} bytes after an in-place edit raised {type(e).__name__}: {e}", alg=alg))
+                else:
+                    w2 = alg + ":" + hashlib.new(alg, data2).hexdigest()
+                    if g2 != w2:
+                        viols.append(_v("stale-digest-after-in-place-edit", f"file_hashsum after an in-place edit (same size, timestamps restored) of {size} bytes = {g2!r}, hashlib says {w2!r}", alg=alg, call="file_hashsum"))
+                    if d2.get("f") != w2:
+                        viols.append(_v("stale-digest-after-in-place-edit", f"dir_hashsums entry after an in-place edit of {size} bytes = {d2.get('f')!r}, hashlib says {w2!r}", alg=alg, call="dir_hashsums"))
+                with open(fp, "r+b") as f:
+                    f.write(data)
+                os.utime(fp, ns=(st.st_atime_ns, st.st_mtime_ns))
     finally:
         env.rmtree(root)
     return viols, n
